@@ -11,7 +11,7 @@ from pyvc import ext_C10
 from pyvc import lemmas as lemlib
 from pyvc.npmodels import S2Arr
 from pyvc.spec import Registry
-from pyvc.values import NArr, SArr, Sym, fresh_name, to_z3
+from pyvc.values import NArr, SArr, Sym, fresh_name, to_z3, zint
 
 
 @lemlib.lemma("nonnegative-numbers-with-equal-squares-are-equal", 2)
@@ -1713,10 +1713,38 @@ def register_extractors(R, H, PAD):
         i = z3.Int(fresh_name("i"))
         return z3.And(res.nz() == FLEN(x.z, f), z3.ForAll([i], z3.Implies(z3.And(i >= 0, i < res.nz()), to_z3(res.get(i), "real") == FV(x.z, f, i))))
 
+    def blocks_padded(E, res, xss, feature, kwargs):
+        """THE statement for populations: one (T, L) block per population, T = the largest number of trees, L = the longest vector:
+        row (i, j) = the vector of tree j of population i followed by zeros; rows of missing trees are zero"""
+        f = feature_id(E, feature, kwargs)
+        T = max(len(xs) for xs in xss)
+        if not (isinstance(res, ext_C10.Grid) and res.P == len(xss) and res.T == T and res.kind == "real" and res.uid not in E.entry_uids):
+            return False
+        L = zint(res.n)
+        lens = [FLEN(x.z, f) for xs in xss for x in xs]
+        out = [z3.And(*[L >= a for a in lens]), z3.Or(*[L == a for a in lens])]
+        for i, xs in enumerate(xss):
+            for j in range(T):
+                row = res.row(i, j)
+                if j < len(xs):
+                    out.append(padded(row, L, (lambda q, _x=xs[j]: FV(_x.z, f, q)), FLEN(xs[j].z, f), 0))
+                else:
+                    out.append(padded(row, L, (lambda q: z3.RealVal(0)), z3.IntVal(0), 0))
+        return z3.And(*out)
+
+    def pops_fe(sizes):
+        def f(S):
+            xss = [[abstract_features(S, f"features{a}_{b}") for b in range(k)] for a, k in enumerate(sizes)]
+            return S.obj(PopulationsFeatureExtractor, _populations=None, _features=PList([PList(xs) for xs in xss])), xss
+
+        return f
+
     def value_is(E, o, res, feature, kwargs):
         xs = o["__fs__"]
         if o["self"].cls is TreeFeatureExtractor:
             return vector_is(E, res, xs[0], feature, kwargs)
+        if o["self"].cls is PopulationsFeatureExtractor:
+            return blocks_padded(E, res, xs, feature, kwargs)
         return rows_padded(E, res, xs, feature, kwargs)
 
     def requests(o):
@@ -1744,7 +1772,8 @@ def register_extractors(R, H, PAD):
 
     def get_calls(E, v, o):
         _, reqs = requests(o)
-        return calls_are(E, [(x, f, kw) for _, f, kw in reqs for x in o["__fs__"]])
+        flat = [x for xs in o["__fs__"] for x in xs] if o["self"].cls is PopulationsFeatureExtractor else o["__fs__"]
+        return calls_are(E, [(x, f, kw) for _, f, kw in reqs for x in flat])
 
     def mk(fe_setup, feature, kwargs=None):
         def f(S):
@@ -1764,6 +1793,9 @@ def register_extractors(R, H, PAD):
         variants[f"{nm},list-of-names-and-pairs"] = mk(fs, lambda S: PList(["feature_a", ("feature_b", PDict(dict(k=S.real("k")))), "feature_a"]))
         variants[f"{nm},dict-name-to-arguments"] = mk(fs, lambda S: PDict(dict(feature_a=PDict({}), feature_b=PDict(dict(k=S.real("k"))))))
         variants[f"{nm},empty-list"] = mk(fs, lambda S: PList([]))
+    variants["populations-of-2-and-1-trees,one-name-with-keyword-arguments"] = mk(pops_fe([2, 1]), "some_feature", lambda S: dict(alpha=S.real("alpha")))
+    variants["populations-of-1-and-1-trees,list-of-names-and-pairs"] = mk(pops_fe([1, 1]), lambda S: PList(["feature_a", ("feature_b", PDict(dict(k=S.real("k"))))]))
+    variants["populations-of-2-trees,dict-name-to-arguments"] = mk(pops_fe([2]), lambda S: PDict(dict(feature_a=PDict({}), feature_b=PDict(dict(k=1)))))
     variants["population-of-1-tree,one-name"] = mk(pop_fe(1), "some_feature")
     variants["population-of-3-trees,list-of-names"] = mk(pop_fe(3), lambda S: PList(["feature_a", "feature_b"]))
     variants["tree,deprecated-name"] = mk(tree_fe, "bifurcation_count")
@@ -1771,9 +1803,9 @@ def register_extractors(R, H, PAD):
 
     R.add(f"{FEX}:FeatureExtractor.get", prop="C10", variants=variants,
           raises={"DeprecationWarning": ("a-deprecated-bifurcation-feature-was-asked-for", lambda E, v, o: isinstance(v["feature"], str) and v["feature"].startswith("bifurcation_"))},
-          ensures=[("per-request-the-tree-evaluators-vector-or-one-zero-padded-row-per-tree-of-the-population-lists-and-dicts-keep-order-and-keys", get_post),
+          ensures=[("per-request-the-tree-evaluators-vector-or-one-zero-padded-row-per-tree-of-the-population(s)-lists-and-dicts-keep-order-and-keys", get_post),
                    ("every-evaluator-asked-once-per-request-in-order-with-the-merged-keyword-arguments", get_calls)],
-          notes="TreeFeatureExtractor and PopulationFeatureExtractor (1-3 trees) over ABSTRACT per-tree evaluators (any vector per (tree, request)); "
+          notes="TreeFeatureExtractor, PopulationFeatureExtractor (1-3 trees) and PopulationsFeatureExtractor (1-2 populations, 2-3 trees) over ABSTRACT per-tree evaluators (any vector per (tree, request)); "
                 "single name, (name, kwargs) pair merged with keyword arguments (keyword arguments win), list form, dict form, deprecated names")
 
     # ------------------------------------------------ _get_feat_and_kwargs
@@ -1975,3 +2007,69 @@ def register_extractors(R, H, PAD):
               ensures=[("one-row-of-straddle-counts-per-tree-at-common-radii-j-times-the-largest-rmax-over-steps-plus-1" + ("-and-those-radii" if with_rs else ""), pop_sholl_post(with_rs)),
                        ("cached-sholl-objects-kept-unchanged", all_sholl_kept)],
               notes="1-2 trees with warm Sholl caches (rs symbolic (m_p, 2), any m_p, rmax_p any real); steps 1, 3, default 20 (one tree), or 2 given radii")
+
+    # ------------------------------------------------ PopulationsFeatureExtractor._get_impl
+    def pops_setup(sizes):
+        def f(S):
+            xss = [[abstract_features(S, f"features{a}_{b}") for b in range(k)] for a, k in enumerate(sizes)]
+            return dict(self=S.obj(PopulationsFeatureExtractor, _populations=None, _features=PList([PList(xs) for xs in xss])), feature="some_feature", __fs__=xss)
+
+        return f
+
+    def pops_post(E, v, o):
+        return blocks_padded(E, v["result"], o["__fs__"], o["feature"], {})
+
+    # FINDING: with exactly ONE tree in total (one population holding one tree) `max(*chain.from_iterable(...))` receives a single int and
+    # raises TypeError("'int' object is not iterable") instead of returning the (1, 1, L) block -- replayed natively, see the report;
+    # the variant "1-population-of-1-tree" keeps the obligation PopulationsFeatureExtractor._get_impl/exc/unexpected-TypeError failing
+    R.add(f"{FEX}:PopulationsFeatureExtractor._get_impl", prop="C10",
+          variants={"1-population-of-1-tree": pops_setup([1]), "1-population-of-2-trees": pops_setup([2]), "2-populations-of-1-tree": pops_setup([1, 1]),
+                    "2-populations-of-2-and-1-trees": pops_setup([2, 1]), "2-populations-of-0-and-2-trees": pops_setup([0, 2])},
+          ensures=[("one-zero-padded-row-per-tree-per-population-rows-of-missing-trees-zero", pops_post),
+                   ("each-tree-evaluated-once-in-order-with-the-requested-feature", lambda E, v, o: calls_are(E, [(x, o["feature"], {}) for xs in o["__fs__"] for x in xs]))],
+          notes="1-2 populations of 0-2 trees (at least one tree in total); the per-tree vectors are abstract (any length, any contents)")
+
+    # ------------------------------------------------ PopulationsFeatureExtractor._get_sholl_impl / get_sholl
+    def pops_sholl_setup(sizes, direct):
+        def build(S, kw):
+            fss = [[warm_features(S, f"rs{a}_{b}_") for b in range(k)] for a, k in enumerate(sizes)]
+            d = dict(self=S.obj(PopulationsFeatureExtractor, _populations=None, _features=PList([PList(fs) for fs in fss])), __fss__=fss, __fs__=[f for fs in fss for f in fs])
+            d.update(kw if direct else dict(kwargs=PDict(kw)))
+            return d
+
+        return build
+
+    def pops_sholl_post(with_rs):
+        def f(E, v, o):
+            res, fss = v["result"], o["__fss__"]
+            radii = radii_of(steps_of(o), Sym(common_rmax(E, o["__fs__"]), "real"))
+            vals = res[0] if with_rs else res
+            if with_rs and not (isinstance(res, tuple) and len(res) == 2 and isinstance(res[1], NArr) and res[1].shape == (len(radii),)):
+                return False
+            T, k = max(len(fs) for fs in fss), len(radii)
+            if not (isinstance(vals, NArr) and vals.shape == (len(fss), T, k) and vals.root().uid not in E.entry_uids):
+                return False
+            out = [to_z3(a, "real") == to_z3(b, "real") for a, b in zip(res[1].items, radii)] if with_rs else []
+            for i, fs in enumerate(fss):
+                for j in range(T):
+                    row = vals.items[(i * T + j) * k:(i * T + j + 1) * k]
+                    out.append(counts_are(E, row, fs[j].fields["sholl"], radii) if j < len(fs) else z3.And(*[to_z3(x, "real") == 0 for x in row]))
+            return z3.And(*out)
+
+        return f
+
+    def ppv(direct):
+        out = {}
+        for nm, sizes in (("1-population-of-2-trees", [2]), ("2-populations-of-1-tree", [1, 1]), ("2-populations-of-1-and-2-trees", [1, 2])):
+            build = pops_sholl_setup(sizes, direct)
+            out[f"{nm},steps=2"] = (lambda S, _b=build: _b(S, dict(steps=2)))
+            if sizes != [1, 2]:
+                out[f"{nm},steps=array-of-2-radii"] = (lambda S, _b=build: _b(S, dict(steps=NArr((2,), [S.real("step0"), S.real("step1")], "real"))))
+        return out
+
+    for nm, with_rs in (("_get_sholl_impl", True), ("get_sholl", False)):
+        R.add(f"{FEX}:PopulationsFeatureExtractor.{nm}", prop="C10", variants=ppv(with_rs), options=dict(inline_calls=INLINE),
+              ensures=[("one-row-of-straddle-counts-per-tree-per-population-at-common-radii-rows-of-missing-trees-zero" + ("-and-those-radii" if with_rs else ""), pops_sholl_post(with_rs)),
+                       ("cached-sholl-objects-kept-unchanged", all_sholl_kept)],
+              notes="1-2 populations of 1-2 trees (at least two trees in total: with a single tree the call runs into the TypeError recorded at "
+                    "PopulationsFeatureExtractor._get_impl) with warm Sholl caches; steps=2 or 2 given radii")
